@@ -599,6 +599,17 @@ func ReachFromEdges(starts []Edge, avoid map[Edge]bool) (map[*ssa.BasicBlock]boo
 	return reachSens(nil, starts, avoid)
 }
 
+// ReachFromEntry returns the blocks reachable from fn's entry without crossing
+// an avoid edge; blocks of through are reached but not left.
+func ReachFromEntry(fn *ssa.Function, through map[*ssa.BasicBlock]bool, avoid []Edge) map[*ssa.BasicBlock]bool {
+	av := map[Edge]bool{}
+	for _, e := range avoid {
+		av[e] = true
+	}
+	seen, _ := reachOpts([]*ssa.BasicBlock{fn.Blocks[0]}, nil, av, nil, through)
+	return seen
+}
+
 // Posf renders positions; set by the loader's user.
 type Posf func(token.Pos) string
 
